@@ -221,8 +221,12 @@ func (c *Case) cmpShadow(opKind string, m *specqbft.SignedMessage, r, s ctrlResu
 }
 
 func (c *Case) applyCtrlStart(h specqbft.Height, value []byte) ctrlResult {
+	before := c.decidedMap()
 	r := c.ctrlStart(c.ctrl, c.rc, h, value)
 	c.emit(fmt.Sprintf("cstart h=%d v=%d", uint64(h), c.in.Val(value)), r.line())
+	if c.c02 {
+		c.c02Check("cstart", nil, r, before)
+	}
 	if c.shCtrl != nil {
 		c.cmpShadow("cstart", nil, r, c.ctrlStart(c.shCtrl, c.shadowRc, h, value))
 	}
@@ -237,8 +241,12 @@ func (c *Case) applyCtrlDeliver(m *specqbft.SignedMessage) ctrlResult {
 		roundBefore, had = inst.State.Round, true
 	}
 	c.roundBefore = roundBefore
+	before := c.decidedMap()
 	r := c.ctrlDeliver(c.ctrl, c.rc, m)
 	c.emit(line, r.line())
+	if c.c02 {
+		c.c02Check("cdeliver", m, r, before)
+	}
 	c.lastRet = r.retMsg
 	if inst := c.ctrl.StoredInstances.FindInstance(m.Message.Height); inst != nil && had && inst.State.Round < roundBefore {
 		c.roundLowered = true // only Controller.UponDecided does that
@@ -251,8 +259,12 @@ func (c *Case) applyCtrlDeliver(m *specqbft.SignedMessage) ctrlResult {
 }
 
 func (c *Case) applyCtrlTimeout(h specqbft.Height, round specqbft.Round) ctrlResult {
+	before := c.decidedMap()
 	r := c.ctrlTimeout(c.ctrl, c.rc, h, round)
 	c.emit(fmt.Sprintf("ctimeout h=%d r=%d", uint64(h), uint64(round)), r.line())
+	if c.c02 {
+		c.c02Check("ctimeout", nil, r, before)
+	}
 	if c.shCtrl != nil {
 		c.cmpShadow("ctimeout", nil, r, c.ctrlTimeout(c.shCtrl, c.shadowRc, h, round))
 	}
